@@ -240,6 +240,22 @@ def stale_alignment(packed, ipos, items):
     return False
 
 
+ITER_START_ERRORS = ('err:CorruptedError', 'err:CorruptedDataError', 'err:ValueError')
+ITER_SIG = 'C09:ro-iterator-start-raises-on-torn-tail'
+
+
+def split_known_iterator_start(got, want, unfinished_tail):
+    """the recorded open finding and nothing but it: (read-only dump) iterator(start) RAISED where the
+    committed-prefix answer was expected, on a file with an unfinished tail; entries that did not raise
+    are equal.  Returns (known?, got', want') with the key removed from both when known."""
+    g, w = got.get('iterator_start'), want.get('iterator_start')
+    if unfinished_tail and isinstance(g, list) and isinstance(w, list) and len(g) == len(w) and g != w and \
+            all(x == y or x in ITER_START_ERRORS for x, y in zip(g, w)):
+        return True, {k: v for k, v in got.items() if k != 'iterator_start'}, \
+            {k: v for k, v in want.items() if k != 'iterator_start'}
+    return False, got, want
+
+
 def first_diff(a, b):
     keys = sorted(k for k in set(a) | set(b) if a.get(k) != b.get(k))
     if not keys:
@@ -388,13 +404,14 @@ def part_a(ck, hist, tag, pack=None, model=True):
             skip = ('datafs_after',)
             a = {k: v for k, v in ro_base['dump'].items() if k not in skip and not k.startswith('after_writes:')}
             b = {k: v for k, v in base['dump'].items() if k not in skip and not k.startswith('after_writes:')}
-            diff = first_diff(a, b)
-            dkeys = sorted(k for k in set(a) | set(b) if a.get(k) != b.get(k))
-            if dkeys == ['iterator_start'] and any(isinstance(x, str) for x in a.get('iterator_start', [])):
-                viol.append(('C09:ro-iterator-start-raises-on-torn-tail', 'read-only open of %s: iterator(start) raises on '
-                             'the unfinished tail: %s' % (name, diff),
+            isknown, a, b = split_known_iterator_start(a, b, torn)
+            if isknown:
+                viol.append((ITER_SIG, 'read-only open of %s: iterator(start) raises on the unfinished tail (%s); all '
+                             'other queries are judged separately' % (name, sorted({x for x in ro_base['dump'][
+                                 'iterator_start'] if isinstance(x, str)})),
                              dict(history=hist, pack=pack, target=name, variant='read-only')))
-            elif diff:
+            diff = first_diff(a, b)
+            if diff:
                 viol.append(('C09:ro-shows-uncommitted-tail' if torn else 'C09:ro-differs-from-writable',
                              'read-only open of %s (which leaves the tail alone) does not show the state of the '
                              'committed prefix that the writable open shows: %s' % (name, diff),
@@ -762,14 +779,14 @@ def ro_session(ck, spec):
                 want = L.dump_storage(ref, oids, tids)
             finally:
                 ref.close()
+            isknown, got, want = split_known_iterator_start(got, want, os.path.getsize(path) > committed_pos)
+            if isknown:
+                viol.append((ITER_SIG, 'read-only instance (%s): iterator(start) raises on the unfinished tail; all other '
+                             'queries are judged separately' % mode, dict(spec, calls=[])))
             diff = first_diff(got, want)
             if diff:
-                dkeys = sorted(k for k in set(got) | set(want) if got.get(k) != want.get(k))
-                sig = 'C09:ro-shows-uncommitted-tail'
-                if dkeys == ['iterator_start'] and any(isinstance(x, str) for x in got.get('iterator_start', [])):
-                    sig = 'C09:ro-iterator-start-raises-on-torn-tail'
-                viol.append((sig, 'read-only instance (%s) does not show the state of the committed prefix: %s'
-                             % (mode, diff), dict(spec, calls=[])))
+                viol.append(('C09:ro-shows-uncommitted-tail', 'read-only instance (%s) does not show the state of the '
+                             'committed prefix: %s' % (mode, diff), dict(spec, calls=[])))
         except Exception as e:
             viol.append(('C09:ro-dump-raised', 'dumping the read-only instance (%s) raised %s' % (mode, L.ename(e)),
                          dict(spec, calls=[])))
@@ -895,7 +912,7 @@ def main(argv=None):
             ck.violation('C09:ro-session-raised', 'setting up / running read-only session %d raised %s: %s'
                          % (i, type(e).__name__, str(e)[:160]), spec)
             continue
-        if viol and len(spec['calls']) > 2:
+        if viol and len(spec['calls']) > 2 and any(x[0] != ITER_SIG for x in viol):
             # shrink the call list (the session is self-contained)
             sig0 = viol[0][0]
 
